@@ -28,7 +28,7 @@ def step (_s : Unit) (ts : List String) : Unit × String :=
         | "t2c", [t] => toString (targetToCompact t)
         | "c2d", [c] => hx (compactToDifficulty c)
         | "d2c", [d] => optNat (difficultyToCompact d)
-        | "pow", [c, h] => b01 (powVerify c h)
+        | "pow", [c, h, _nonce, _number] => b01 (powVerify c h)
         | "enf", [v] => s!"{enfNumber v} {enfIndex v} {enfLength v} wf={b01 (enfIsWellFormed v)} gen={b01 (enfIsGenesis v)}"
         | "enfnew", [n, i, l] => toString (enfPack n i l)
         | "succ", [s, p] => b01 (enfIsSuccessorOf s p)
@@ -39,6 +39,8 @@ def step (_s : Unit) (ts : List String) : Unit × String :=
           optNat (blockReward { number := 0, base, rem, prevHR := 0, start, length := len, compact := 0 } n)
         | "sec", [start, len, sec, n] =>
           optNat (secondaryBlockIssuance { number := 0, base := 0, rem := 0, prevHR := 0, start, length := len, compact := 0 } n sec)
+        | "nwf", [number, start, len, n] =>
+          optNat (numberWithFraction { number, base := 0, rem := 0, prevHR := 0, start, length := len, compact := 0 } n)
         | "prim", [initial, halving, n] => optNat (primaryEpochReward { T := 0, initial, halving } n)
         | "next", [T, initial, halving, ortN, ortD, number, base, rem, prevHR, start, len, hn, hc, uncles, dur] =>
           (match nextEpochExt { T, initial, halving, ortN, ortD }
